@@ -231,6 +231,7 @@ impl<'c, 'a, 't> VisitMut for R9<'c, 'a, 't> {
         };
         let kind = self.cx.opts["sites"].get(ord.to_string()).and_then(|v| v.as_str())
             .or_else(|| self.cx.opts["sites"].get(&method).and_then(|v| v.as_str()))
+            .or_else(|| self.cx.opts["sites"].get("*").and_then(|v| v.as_str()))
             .unwrap_or("Parsed").to_string();
         if kind == "keep" {
             return;
